@@ -206,6 +206,7 @@ def check(prop, tier, args):
     conf = dict(TIERS[tier])
     if args.runs:
         conf['runs'] = args.runs
+        conf['cap'] = max(conf['cap'], args.runs // 15)     # the cap only bounds hangs
     workers = args.workers or min(16, os.cpu_count() or 1)
     known = load_known()
     exit_code = 0
